@@ -349,6 +349,9 @@ package database
 //@   ensures result == nil || (typeis(result, map[string]interface{}) && fresh(result.(map[string]interface{})))
 //@ func (*MockTableHandler).Create
 //@   strict
+// the generated id is derived from the table as it is inside this critical section (two concurrent
+// creates cannot be handed the same id)
+//@   assertat "int64(len(m.db.data[m.name]) + 1)" heldw(addr(m.db.mu))
 //@   requires m != nil && m.db != nil
 // the row kept by the table is not the caller's map
 //@   atunlock len(m.db.data[m.name]) == atlock(len(m.db.data[m.name])) + 1 && fresh(m.db.data[m.name][len(m.db.data[m.name])-1])
